@@ -84,3 +84,20 @@ package cmap
 //@     decreases s.last + 1 - c
 //@   loop 2
 //@     invariant buf != nil && fresh(buf)
+
+// decodeFormat4: total on arbitrary bytes (C02); glyphIdArray is only indexed
+// after the range derived from idRangeOffset was checked against its length.
+//@ func decodeFormat4(in []byte, code2rune func(c int) rune) (sub Subtable, err error)   props: C02 C09
+//@   loop 0
+//@     invariant 14 <= i && i <= len(in) && i%2 == 0 && len(in)%2 == 0 && len(words) == (i - 14)/2 && cap(words) >= (len(in) - 14)/2 && fresh(words) && segCount*2 == segCountX2 && 4*segCountX2 + 16 <= len(in) && 0 <= segCount && code2rune != nil
+//@     decreases len(in) - i
+//@   loop 1
+//@     invariant 0 <= k && k <= segCount && len(endCode) == segCount && len(startCode) == segCount && len(idDelta) == segCount && len(idRangeOffset) == segCount && cmap != nil && code2rune != nil && len(glyphIDArray) >= 0 && prevEnd <= 65536
+//@     decreases segCount - k
+//@   loop 2
+//@     invariant start <= idx && idx <= end && end <= 65536 && 0 <= k && k < segCount && len(endCode) == segCount && len(startCode) == segCount && len(idDelta) == segCount && len(idRangeOffset) == segCount && cmap != nil && code2rune != nil && prevEnd <= 65536
+//@     decreases end - idx
+//@   loop 3
+//@     invariant start <= idx && idx <= end && end <= 65536 && 0 <= k && k < segCount && len(endCode) == segCount && len(startCode) == segCount && len(idDelta) == segCount && len(idRangeOffset) == segCount && cmap != nil && code2rune != nil && prevEnd <= 65536
+//@     invariant 0 <= d && d + (end - start) <= len(glyphIDArray)
+//@     decreases end - idx
